@@ -27,9 +27,15 @@ pub open spec fn strictly_inside(p: Seq<Seq<char>>, base: Seq<Seq<char>>) -> boo
     &&& forall|i: int| base.len() <= i < p.len() ==> safe_component(#[trigger] p[i])
 }
 
+// what can be pushed onto a PathBuf in this code base: an owned String (the sanitised key) or a &str
+pub trait VxPathComp { spec fn comp(&self) -> Seq<char>; }
+impl VxPathComp for String { open spec fn comp(&self) -> Seq<char> { self@ } }
+impl<'a> VxPathComp for &'a str { open spec fn comp(&self) -> Seq<char> { self@ } }
+impl<'a> VxPathComp for &'a String { open spec fn comp(&self) -> Seq<char> { self@ } }
+
 #[verifier::external_body]
-pub fn pathbuf_push(p: &mut std::path::PathBuf, c: String)
-    ensures path_view(final(p)) == path_push_any(path_view(old(p)), c@)
+pub fn pathbuf_push<S: VxPathComp + AsRef<std::path::Path>>(p: &mut std::path::PathBuf, c: S)
+    ensures path_view(final(p)) == path_push_any(path_view(old(p)), c.comp())
 {
     p.push(c)
 }
